@@ -154,6 +154,9 @@ type vtXfer struct {
 	Payload int    `json:"payload"`
 	Fault   string `json:"fault"`
 	At      int    `json:"at"`
+	// After = k > 0: the relay holds this transfer's segments behind its first one until transfer k (1-based, same
+	// direction) has been handed to the peer completely, so that a later transfer finishes before an earlier one.
+	After int `json:"after"`
 }
 
 type vtScenario struct {
@@ -172,6 +175,8 @@ type vtDir struct {
 	ackCount map[uint64]int
 	dead     map[uint64]bool // transfers whose further segments are discarded silently (after refuse / close)
 	firstSeg []chan struct{}
+	parked   []*msgs.DataTransmissionMessage // segments held back (see vtXfer.After)
+	ended    map[uint64]bool                 // transfers whose END segment went to the peer
 	fwd      int // segments handed to the peer
 	acked    int // acknowledgements seen coming back from the peer (forwarded or dropped)
 	ends     int // END segments handed to the peer
@@ -209,7 +214,7 @@ func vtRun(sc vtScenario) (traces []vhRec, problem string) {
 	defer func() { _ = tmA.Close(); _ = tmB.Close() }()
 
 	mk := func(xs []vtXfer) *vtDir {
-		d := &vtDir{segCount: map[uint64]int{}, ackCount: map[uint64]int{}, dead: map[uint64]bool{}}
+		d := &vtDir{segCount: map[uint64]int{}, ackCount: map[uint64]int{}, dead: map[uint64]bool{}, ended: map[uint64]bool{}}
 		for range xs {
 			d.firstSeg = append(d.firstSeg, make(chan struct{}))
 		}
@@ -231,57 +236,73 @@ func vtRun(sc vtScenario) (traces []vhRec, problem string) {
 			case m := <-fromOut:
 				switch msg := m.(type) {
 				case *msgs.DataTransmissionMessage:
-					d.mu.Lock()
-					id := msg.TransferId
-					if int(id) >= len(xfers[name]) || d.dead[id] {
-						d.mu.Unlock()
-						continue
-					}
-					x := xfers[name][id]
-					d.log(vtEvent{"e": "seg", "id": id + 1, "len": len(msg.Data), "start": msg.Flags&msgs.SegmentStart != 0, "end": msg.Flags&msgs.SegmentEnd != 0})
-					d.log(vtEvent{"e": "peer"})
-					n := d.segCount[id]
-					d.segCount[id] = n + 1
-					if n == 0 {
-						close(d.firstSeg[id])
-					}
-					faulty := x.Fault != "none" && n >= x.At
-					switch {
-					case faulty && x.Fault == "refuse":
-						d.dead[id] = true
-						d.mu.Unlock()
-						// the refusal must not overtake the acknowledgements of the segments the peer already got
-						for w := 0; w < 3000; w++ {
-							d.mu.Lock()
-							settled := d.acked >= d.fwd
-							d.mu.Unlock()
-							if settled {
-								break
-							}
-							time.Sleep(time.Millisecond)
-						}
+					// segments are processed in the order the relay decides to hand them on: held ones wait in d.parked
+					queue := []*msgs.DataTransmissionMessage{msg}
+					for len(queue) > 0 {
+						msg := queue[0]
+						queue = queue[1:]
 						d.mu.Lock()
-						d.log(vtEvent{"e": "refuse", "id": id + 1})
-						d.mu.Unlock()
-						// the refusal travels like an acknowledgement: into the sender's input
-						if name == "ab" {
-							aIn <- msgs.NewTransferRefusalMessage(msgs.RefusalNoResources, id)
-						} else {
-							bIn <- msgs.NewTransferRefusalMessage(msgs.RefusalNoResources, id)
+						id := msg.TransferId
+						if int(id) >= len(xfers[name]) || d.dead[id] {
+							d.mu.Unlock()
+							continue
 						}
-					case faulty && x.Fault == "close":
-						for i := range xfers[name] {
-							d.dead[uint64(i)] = true
+						x := xfers[name][id]
+						if x.After > 0 && d.segCount[id] > 0 && !d.ended[uint64(x.After-1)] && !d.dead[uint64(x.After-1)] {
+							d.parked = append(d.parked, msg)
+							d.mu.Unlock()
+							continue
 						}
-						d.mu.Unlock()
-						_ = sender.Close()
-					default:
-						d.fwd++
-						if msg.Flags&msgs.SegmentEnd != 0 {
-							d.ends++
+						d.log(vtEvent{"e": "seg", "id": id + 1, "len": len(msg.Data), "start": msg.Flags&msgs.SegmentStart != 0, "end": msg.Flags&msgs.SegmentEnd != 0})
+						d.log(vtEvent{"e": "peer"})
+						n := d.segCount[id]
+						d.segCount[id] = n + 1
+						if n == 0 {
+							close(d.firstSeg[id])
 						}
-						d.mu.Unlock()
-						toIn <- msg
+						faulty := x.Fault != "none" && n >= x.At
+						switch {
+						case faulty && x.Fault == "refuse":
+							d.dead[id] = true
+							d.mu.Unlock()
+							// the refusal must not overtake the acknowledgements of the segments the peer already got
+							for w := 0; w < 3000; w++ {
+								d.mu.Lock()
+								settled := d.acked >= d.fwd
+								d.mu.Unlock()
+								if settled {
+									break
+								}
+								time.Sleep(time.Millisecond)
+							}
+							d.mu.Lock()
+							d.log(vtEvent{"e": "refuse", "id": id + 1})
+							queue = append(queue, d.parked...) // transfers waiting for this one go on
+							d.parked = nil
+							d.mu.Unlock()
+							// the refusal travels like an acknowledgement: into the sender's input
+							if name == "ab" {
+								aIn <- msgs.NewTransferRefusalMessage(msgs.RefusalNoResources, id)
+							} else {
+								bIn <- msgs.NewTransferRefusalMessage(msgs.RefusalNoResources, id)
+							}
+						case faulty && x.Fault == "close":
+							for i := range xfers[name] {
+								d.dead[uint64(i)] = true
+							}
+							d.mu.Unlock()
+							_ = sender.Close()
+						default:
+							d.fwd++
+							if msg.Flags&msgs.SegmentEnd != 0 {
+								d.ends++
+								d.ended[id] = true
+								queue = append(queue, d.parked...)
+								d.parked = nil
+							}
+							d.mu.Unlock()
+							toIn <- msg
+						}
 					}
 				case *msgs.DataAcknowledgementMessage:
 					// acknowledgement for a transfer of the *other* direction
